@@ -109,6 +109,9 @@ class int_eval_macro(Macro):
 
 class int_eval_conv(Conv):
     def get_proof_term(self, t):
+        if t.get_type() == nat.NatType:
+            # exponents are natural numbers
+            return nat.nat_eval_conv().get_proof_term(t)
         if t.get_type() != IntType:
             return refl(t)
         simp_t = Int(int_eval(t))
@@ -384,8 +387,10 @@ class simp_full(Conv):
 
 class int_norm_conv(Conv):
     def eval(self, t):
-        norm_t = from_poly(convert_to_poly(t))
-        return Thm(Eq(t, norm_t))
+        # The polynomial shortcut (from_poly(convert_to_poly(t))) builds a
+        # differently associated term than the proof term and fails on powers;
+        # report exactly what the proof term proves.
+        return self.get_proof_term(t).th
 
     def get_proof_term(self, t):
         return refl(t).on_rhs(
